@@ -871,10 +871,9 @@ class PairArr:
         if isinstance(idx, slice):
             first, cnt, step = slice_axis(self.m.shape_[0], idx)
             sub = getitem_nd(self.m, (idx, slice(None)))
-            st = z3.simplify(step)
-            unit = z3.is_int_value(st) and st.as_long() == 1
-            cv = dim_value(cnt)
-            return PairArr(sub, contiguous=bool(unit or (cv is not None and cv <= 1)))
+            # numpy: the sliced array is contiguous iff the step is 1 or at most one element is selected
+            contiguous = cur().branch(z3.Or(step == 1, dim_term(cnt) <= 1), "contiguous-slice")
+            return PairArr(sub, contiguous=contiguous)
         if isinstance(idx, (SInt, numbers.Integral, _np.integer)) and not isinstance(idx, bool):
             t = I(idx)
             check_index_bounds(t, self.m.shape_[0])
@@ -1162,6 +1161,27 @@ def getitem(arr, idx):
         addr = arr.addr
         return SymArr((1,) + arr.shape_, arr.buf, lambda i, *r: addr(*r), arr.dtype)
     if arr.ndim == 2:
+        if isinstance(idx, (list, _np.ndarray)):
+            try:
+                idx = as_operand(idx)[1]
+            except _NotArrayLike:
+                raise Unsupported("index list")
+        if isinstance(idx, SymArr) and idx.ndim == 1:
+            # row gather of a matrix: fresh (len(idx), k) / (#true, k)
+            n0, k0 = arr.shape_
+            asnap = arr.snapshot()
+            if idx.kind == "bool":
+                if not same_dim(n0, idx.shape_[0]) and not cur().branch(dim_term(n0) == dim_term(idx.shape_[0]), "mask-len"):
+                    raise IndexError("boolean index did not match indexed array along axis 0")
+                nz = nonzero_facts(idx, "mg2")
+                r = SymArr.fresh((nz.cnt, k0), lambda i, j: asnap(nz.pos(i), j), arr.kind, arr.dtype)
+                r.nz = nz
+                return r
+            if idx.kind != "int":
+                raise IndexError("arrays used as indices must be of integer (or boolean) type")
+            check_index_bounds(idx, n0)
+            isnap = idx.snapshot()
+            return SymArr.fresh((idx.shape_[0], k0), lambda i, j: asnap(wrap_index(isnap(i), n0), j), arr.kind, arr.dtype)
         return getitem_nd(arr, (idx, slice(None)))
     n = arr.shape_[0]
     if isinstance(idx, slice):
@@ -1331,15 +1351,28 @@ class NonzeroFacts:
                                z3.Implies(mask_f(i), z3.And(rk(i) < cnt, pos(rk(i)) == i)))))
         c.assume_forall(name + ".rkmono", lambda i, j: z3.Implies(z3.And(0 <= i, i <= j, j <= n_), rk(i) <= rk(j)), arity=2)
         c.add_index(z3.IntVal(0))
+        c.ghost.setdefault("nonzero_facts", []).append(self)
+
+
+_NZ_PROBE = z3.Int("probe!nz")
 
 
 def nonzero_facts(mask_arr, name="nz"):
+    """the flatnonzero contract of a mask; one set of ghost functions per (structurally identical) mask value"""
     flat = mask_arr.ravel()
     snap = flat.snapshot()
     if flat.kind != "bool":
         s2 = snap
         snap = lambda i: coerce_term(s2(i), "bool")
-    return NonzeroFacts(snap, flat.shape_[0], name)
+    c = cur()
+    t, n = snap(_NZ_PROBE), dim_term(flat.shape_[0])
+    cache = c.ghost.setdefault("cache_nz", {})
+    key = (t.get_id(), n.get_id())
+    if key in cache:
+        return cache[key][0]
+    nz = NonzeroFacts(snap, flat.shape_[0], name)
+    cache[key] = (nz, t, n)          # terms kept alive (ids are recycled otherwise)
+    return nz
 
 
 def mask_gather(arr, mask):
